@@ -121,3 +121,18 @@ Definition c_names (prefix scope : ustr) (fs : list fn) : list ustr :=
   map (nm_c_name prefix scope) (filter e_c (expand fs)).
 Definition f_names (scope : ustr) (fs : list fn) : list ustr :=
   map (nm_f_impl scope) (filter e_f (expand fs)).
+
+(* ---- wrap flags of the declared functions (options wrap_c / wrap_fortran on a declaration): they select which of the emitted
+   names exist, never how the functions are expanded or numbered (generate.py computes function_suffix before and without
+   looking at the flags; wrapc / wrapf skip a function whose flag is off) ---- *)
+Definition apply_wrap (ws : list (bool * bool)) (e : emitted) : emitted :=
+  match nth_error ws (e_src e) with
+  | Some (wc, wf) => {| e_src := e_src e; e_origin := e_origin e; e_name := e_name e; e_fs := e_fs e; e_fs_local := e_fs_local e;
+                        e_ts := e_ts e; e_templ := e_templ e; e_c := e_c e && wc; e_f := e_f e && wf |}
+  | None => e
+  end.
+Definition expand_w (fs : list fn) (ws : list (bool * bool)) : list emitted := map (apply_wrap ws) (expand fs).
+Definition c_names_w (prefix scope : ustr) (fs : list fn) (ws : list (bool * bool)) : list ustr :=
+  map (nm_c_name prefix scope) (filter e_c (expand_w fs ws)).
+Definition f_names_w (scope : ustr) (fs : list fn) (ws : list (bool * bool)) : list ustr :=
+  map (nm_f_impl scope) (filter e_f (expand_w fs ws)).
